@@ -1,16 +1,38 @@
 mod c04;
+mod c05;
+mod sexp;
 mod lexutil;
 mod util;
 
 fn main() {
     std::env::set_var("RUST_BACKTRACE", "0");
-    std::panic::set_hook(Box::new(|_| {}));
+    std::panic::set_hook(Box::new(|info| {
+        // panics of the code under test are caught and reported as data; the harness's own are loud
+        if !util::IN_FMT.with(|f| f.get()) {
+            eprintln!("harness panic: {}", info);
+        }
+    }));
     let args: Vec<String> = std::env::args().collect();
     let tier = std::env::var("VERIF_TIER").unwrap_or_else(|_| "quick".into());
     let seed: u64 = std::env::var("VERIF_SEED").ok().and_then(|s| s.parse().ok()).unwrap_or(0);
     let cmd = args.get(1).map(|s| s.as_str()).unwrap_or("");
     let sink = match cmd {
         "c04" => c04::run(&tier, seed),
+        "c05" => c05::run(&tier, seed),
+        "fmt" => {
+            // ad-hoc: hx fmt "<config string>" < input
+            use std::io::Read;
+            let mut src = String::new();
+            std::io::stdin().read_to_string(&mut src).unwrap();
+            let c = util::cfg_from_string(args.get(2).map(|s| s.as_str()).unwrap_or(""));
+            match util::fmt(&src, c, None, false) {
+                util::Outcome::Ok(o) => print!("{}", o),
+                util::Outcome::ParseError => println!("<parse error>"),
+                util::Outcome::OtherError(e) => println!("<error {}>", e),
+                util::Outcome::Panic(m) => println!("<panic {}>", m),
+            }
+            return;
+        }
         _ => {
             eprintln!("usage: hx <c04|...>");
             std::process::exit(64);
